@@ -44,7 +44,54 @@ def run(p: Project, tier: str) -> Result:
         check_lockstep(p, w, r, 'C02.R4')
     check_wrap(p, ws, r, 'C02.R2')
     check_index_agreement(ws, r)
+    check_mutator_vocabulary(p, ws, r)
     return r
+
+
+COVERED_OPS = {'append', 'insert', 'pop', 'remove', 'index', 'count', 'copy'}
+
+
+def check_mutator_vocabulary(p, ws, r):
+    """R6: the inductive argument of R1-R4 speaks about append / insert / pop / remove on the holding and binding lists.  Any other in-place
+    operation on them - sort, reverse, clear, extend, slice / item assignment, `del`, re-binding the attribute outside the constructor - moves
+    or drops items behind the back of that argument: re-ordering the available list while retrievals are bound to positions of it hands two
+    tokens the same item (or none), clearing or re-binding a holder loses items."""
+    r.rule('C02.R6', 'holding and binding lists are changed only by append / insert / pop / remove (no re-ordering, clearing, slicing, re-binding)', 6)
+    seen = set()
+    for w in ws:
+        s = w.store
+        roles = set(s.holders) | {s.avail, RE, RG, RP} | ({RI} if s.has_ri else set())
+        n_ops = 0
+        bad = []
+        for fi in w.all_hierarchy_functions():
+            if fi.key in seen:
+                continue
+            seen.add(fi.key)
+            r.analysed_functions.add(fi.key)
+            for n in walk_no_nested(fi.node):
+                if isinstance(n, ast.Call) and isinstance(n.func, ast.Attribute) and self_attr(n.func.value) in roles:
+                    n_ops += 1
+                    if n.func.attr not in COVERED_OPS:
+                        bad.append((fi, n, self_attr(n.func.value), f'.{n.func.attr}()'))
+                elif isinstance(n, (ast.Assign, ast.AugAssign, ast.AnnAssign, ast.Delete)):
+                    for t in (n.targets if isinstance(n, (ast.Assign, ast.Delete)) else [n.target]):
+                        for tt in (t.elts if isinstance(t, (ast.Tuple, ast.List)) else [t]):
+                            if isinstance(tt, ast.Subscript) and self_attr(tt.value) in roles:
+                                bad.append((fi, n, self_attr(tt.value), 'item / slice assignment' if not isinstance(n, ast.Delete) else '`del` of an element or slice'))
+                            elif self_attr(tt) in roles and fi.name != '__init__':
+                                bad.append((fi, n, self_attr(tt), 're-binding of the attribute'))
+        key = f'{s.ci.label}::mutator-vocabulary'
+        if n_ops == 0 and not bad:
+            continue
+        if not bad:
+            r.ok('C02.R6', key, f'{n_ops} operation(s) on {sorted(roles)}: all within append / insert / pop / remove / index', src(s.ci.module), s.ci.node.lineno)
+        for fi, n, L, what in bad:
+            r.fail('C02.R6', site(fi, n, f'uncovered-mutation:{L}', same=lambda x, n=n: type(x) is type(n)) if not isinstance(n, ast.Call) else site(fi, n, f'uncovered-mutation:{L}'),
+                   f'`self.{L}` is changed by {what} in {fi.cls}.{fi.name}: '
+                   + ('re-ordering the list while granted retrievals are bound to its positions gives two tokens the same item or leaves one without'
+                      if what in ('.sort()', '.reverse()') and L in (s.avail, RE, RI) else
+                      'items / reservations are moved or dropped outside the operations the conservation argument covers'),
+                   src(fi.module), n.lineno)
 
 
 # -------------------------------------------------------------------------------------------- R1
